@@ -1,4 +1,5 @@
 """C08 — recordings and inputs land on the right row, compartment and time step."""
+import copy
 import math
 
 PROP_FILES = ["Props/C08.v"]
@@ -267,8 +268,39 @@ def run(ctx):
                         viol.append(dict(case, kind="clamped synaptic state differs from its clamp value", got=out[k].tolist()))
                 elif abs(out[k, 1] - 0.9) < 1e-12:
                     viol.append(dict(case, kind="a clamp of one synapse changed another synapse", other=[idx, s], got=out[k].tolist()))
+            # the same clamp through a view that ALSO contains synapses of the other type: only the
+            # view's synapses of the clamped type are clamped (clamp and data_clamp)
+            net2, types2 = build_net(rng)
+            ne2 = len(types2)
+            want_type = rng.choice(sorted(set(types2)))
+            st2 = "IonotropicSynapse_s" if want_type == "IonotropicSynapse" else "TestSynapse_c"
+            view_edges = sorted(rng.sample(range(ne2), rng.randint(2, ne2)))
+            if not any(types2[e_] == want_type for e_ in view_edges):
+                view_edges = sorted(set(view_edges + [types2.index(want_type)]))
+            want_edges = [e_ for e_ in view_edges if types2[e_] == want_type]
+            for how in ("clamp", "data_clamp"):
+                net3 = copy.deepcopy(net2)
+                with quiet():
+                    for e_ in range(ne2):
+                        net3.select(edges=[e_]).record("IonotropicSynapse_s" if types2[e_] == "IonotropicSynapse" else "TestSynapse_c")
+                    if how == "clamp":
+                        net3.select(edges=view_edges).clamp(st2, jnp.asarray([0.9, 0.8]))
+                        out3 = np.asarray(jx.integrate(net3, delta_t=0.025, voltage_solver="jax.sparse"))
+                    else:
+                        dcl = net3.select(edges=view_edges).data_clamp(st2, jnp.asarray([0.9, 0.8]), None)
+                        out3 = np.asarray(jx.integrate(net3, delta_t=0.025, data_clamps=dcl, voltage_solver="jax.sparse"))
+                evals += 1
+                registered = sorted(int(i_) for i_ in (np.asarray(net3.external_inds[st2]).reshape(-1) if how == "clamp" else dcl[2].index))
+                if registered != want_edges:
+                    viol.append({"kind": f"{how} of a synaptic state through a view with several synapse types registers other synapses than the view's synapses of that type",
+                                 "synapse_types": types2, "edges_in_view": view_edges, "state": st2, "registered": registered, "expected": want_edges})
+                clamped = [e_ for e_ in range(ne2) if np.array_equal(out3[e_, 1:], [0.9, 0.8])]
+                if clamped != want_edges:
+                    viol.append({"kind": f"{how} of a synaptic state through a view with several synapse types does not clamp exactly the view's synapses of that type",
+                                 "synapse_types": types2, "edges_in_view": view_edges, "state": st2, "clamped": clamped, "expected": want_edges})
         except Exception as ex:
-            viol.append({"kind": "clamp of a synaptic state raised", "error": repr(ex)[:300]})
+            import traceback
+            viol.append({"kind": "clamp of a synaptic state raised", "error": repr(ex)[:300], "trace": traceback.format_exc()[-400:]})
 
     # ---- D. Model/Index.v on sampled tables (record, rank_in_type/per_type, pad_or_truncate)
     for _ in range(ctx.budget(20, 200)):
@@ -292,7 +324,7 @@ def run(ctx):
     for v in viol:
         v.setdefault("finding_class", None)
     return {"evaluations": evals, "distinct_nontrivial": len(distinct),
-            "rule": "A: networks with interleaved synapse types, every compartment/synapse with a distinct initial value, random sequences of record() calls on views (v, synaptic states and currents): table order and identity of each row; B: stimulated passive cells against the exact step-by-step reference (timing, charge, additivity), t_max shorter/longer, data_stimulate, target geometry supplied at integrate time (trainable radius, data_set length), clamp/data_clamp; C: clamps of synaptic states; D: Model/Index.v on sampled tables; distinct by (network, calls)",
+            "rule": "A: networks with interleaved synapse types, every compartment/synapse with a distinct initial value, random sequences of record() calls on views (v, synaptic states and currents): table order and identity of each row; B: stimulated passive cells against the exact step-by-step reference (timing, charge, additivity), t_max shorter/longer, data_stimulate, target geometry supplied at integrate time (trainable radius, data_set length), clamp/data_clamp; C: clamps of synaptic states, also through views that contain synapses of several types (clamp and data_clamp); D: Model/Index.v on sampled tables; distinct by (network, calls)",
             "samples": samples, "violations": viol[:20], "traces_validated_against_impl": len(coq_jobs)}
 
 
